@@ -15,8 +15,12 @@ def configs(tier):
         out.append(dict(universe="H4", values=("S", "L"), prune=prune, use_cache=False, max_mut=1, root_via="root_node", batch_mut=True))
     # the pruning trie being walked was re-opened on its database with regenerated reference counts
     out.append(dict(universe="H4", values=("S", "L"), prune=True, use_cache=False, max_mut=1, regen=True))
+    # the mutation is a batch opened on a batch trie (both commit), the two levels writing the same key
+    out.append(dict(universe="H3", values=("S", "L"), prune=True, use_cache=False, max_mut=1, nested_mut=True))
     if tier == "thorough":
         out = []
+        for prune in (False, True):
+            out.append(dict(universe="H4", values=("S", "L"), prune=prune, use_cache=True, max_mut=1, nested_mut=True))
         out.append(dict(universe="H5", values=("S", "L"), prune=True, use_cache=True, max_mut=1, regen=True))
         for prune in (False, True):
             for cache in (False, True):
@@ -43,7 +47,7 @@ def run(tier, seed):
             kw["init"] = tuple(kw["init"])
         sysm = WalkSys(seed=seed, **kw)
         res = explore(sysm, state_cap=3_000_000, replay_cap=4000)
-        name = f"{kw['universe']} prune={kw['prune']} cache={kw['use_cache']} M<={kw['max_mut']}" + (" via root_node" if kw.get("root_via") == "root_node" else "") + (" +batches" if kw.get("batch_mut") else "") + (" re-opened with regenerated counts" if kw.get("regen") else "")
+        name = f"{kw['universe']} prune={kw['prune']} cache={kw['use_cache']} M<={kw['max_mut']}" + (" via root_node" if kw.get("root_via") == "root_node" else "") + (" +batches" if kw.get("batch_mut") else "") + (" re-opened with regenerated counts" if kw.get("regen") else "") + (" +nested batches" if kw.get("nested_mut") else "")
         rep.add_bfs(name, res, sysm, keep_samples=1)
         rep.parts[-1]["terminal_states"] = res.terminal_states
         rep.parts[-1]["schedules"] = res.paths_to_terminals
